@@ -74,6 +74,12 @@ CHECKS["C04"] = dict(
   text="One index holds every payload layout (every sequence of <=3 chunks, each a direction and one of 6 (thorough 9) words; a third of the streams with a cached output of converter 1, a sixth with one of converter 2). Every regex AST up to size 3 (thorough 4) over the filter grammar as cdata / negated sdata / data.none / cdata.conv1 / negated sdata.conv2, every pair of a 99-regex set chained with THEN in all direction combinations, combined with AND sharing an expression, negated (raw representation), every triple of an 8-regex set in two direction patterns, and captures reused as @v@ variables in 6 positions are searched with index.SearchStreams; the selected set must equal, stream by stream, what a naive leftmost-first scan of the untrimmed bytes selects (a match hides for the other direction everything up to the chunk holding its last byte; positive filters need one representation, negated ones none).",
   note="Negated sequences over several representations are the recorded finding KF-C02-3 and are enumerated on the raw representation only. Payloads crossing the 4096-byte buffer and 64 KiB packets are covered by C01/C07, not here. rsc.io/binaryregexp is trusted.")
 
+CHECKS["C11"] = dict(
+  category="model_checking", engine="E2-service+workers", design_ref="3/C11",
+  technique="explicit-state BFS over sequences of tag API calls on the real service, every transition in a supervised worker process, tag-table reference checks after every call",
+  text="Breadth-first search (quick depth 4, thorough depth 5) over a 43-call menu (AddTag/UpdateTag/DelTag with valid and invalid names and definitions, references to existing, missing, self and cycle-closing tags, colour and name updates incl. taken names and type changes, marks with known, unknown and empty id lists, converter sets with known/unknown converters and on tags that cannot take one) on the real manager with 3 imported streams; background jobs are drained after every call. After every call: an error return must leave the complete tag table (definition, colour, converters, matches, pending, referenced-by) unchanged, a nil return must have had its effect, no definition may reference a missing tag, the reference graph must be acyclic, referenced-by and the Referenced flag of ListTags must mirror the definitions; a process death or no answer within 45 s is attributed to the exact call sequence.",
+  note="States are merged by the complete tag table after the jobs have run. Each API call carries one operation, as the HTTP API does.")
+
 NOT_YET = {}
 
 def main():
